@@ -23,6 +23,23 @@ R10e no start window between the cancel and the stop: Stop and Restart are gener
      RestartEngineCommand._run a cancel_all_commands(...) call must therefore lie in the same generator segment as
      (and before) _stop_interpreter() - a cancel that is separated from the stop by a `yield` leaves a one-tick window in
      which a command can start that nothing cancels or finalizes any more.
+R10f what Stop cancels is shown as cancelled: Stop's cancellation reaches the run log through Tracking.mark_cancelled(request), whose
+     exceptions _cancel_command swallows. For a request/command instance the command *has* been cancelled whatever its node
+     says, so (1) a refusal of the node (`node.cancel()` false: the user forced the running instruction, or the node was already
+     flagged) may raise only when the instance is the node itself - for a request every path goes on to the Cancelled state;
+     (2) the node is touched only if it has started in this invocation (`node.started`, as in mark_completed): the command of the
+     previous macro call / Alarm run that is cancelled after the body was reset would otherwise flag the fresh node, and the
+     second invocation's own cancellation is then the refused one.
+R10g Stop cancels what exists, not only what it sees: a live UOD command instance can be without an executing request (the
+     command manager is replaced by every method merge and starts with empty lists; a request can be retired by the
+     concluded-invocation gate). In CommandManager.cancel_commands, when finalizing, there is a loop over the unit operation's
+     own registry (`uod.command_instances`) whose body reaches a finalize() of the iterated command - logging the leftovers is
+     not enough: the instance survives Stop and Restart and the next request of that name continues it.
+R10h retiring a request does not abandon its command: the concluded-invocation gate of _execute_command (C12 R12g) retires the
+     request without reaching the executors. If the request has started a command (the instance registered under its name
+     carries the request's instance id) the gate finalizes it (_finalize_command) - two requests issued under one instance id
+     (a macro body walked by the main program and a Watch one tick apart) conclude the invocation while the second request's
+     command is running.
 """
 from __future__ import annotations
 
@@ -264,3 +281,97 @@ def run(ctx) -> None:
                          "cancelled: a request executed after this command in the tick of the cancel (e.g. a user command and a "
                          "user Stop made in the same tick gap, executed newest first) starts its UOD command after the cancel; "
                          "nothing cancels or finalizes it, and its instance is still registered when Stop/Restart completes", bad)
+
+    # ---- R10f
+    ctx.rule("R10f", "the cancellation of a command is recorded whatever its node says")
+    mcf = prog.func("openpectus.lang.exec.tracking:Tracking.mark_cancelled")
+    ctx.analysed(mcf)
+    gmc = cfg_of(mcf)
+    from ..util import local_single_defs as _lsd10
+    ld = _lsd10(mcf)
+    ipar = [a.arg for a in mcf.node.args.args if a.arg != "self"][0]
+    ncancel = [n for n in gmc.nodes if n.ast is not None and any(call_attr(c) == "cancel" and not c.args for c in n.calls())]
+    adds = [n for n in gmc.nodes if n.ast is not None and any(call_attr(c) == "_add_record_state" and "Cancelled" in norm(c) for c in n.calls())]
+    if not ncancel or not adds:
+        raise AnchorError("Tracking.mark_cancelled: node.cancel() / _add_record_state(.., Cancelled) not found")
+
+    def is_cmd_text(t: str) -> bool:
+        return "isinstance(" + ipar in t and ("CommandRequest" in t or "EngineCommand" in t)
+
+    def is_node_text(t: str) -> bool:
+        return "isinstance(" + ipar in t and ".Node" in t and "CommandRequest" not in t
+    inst = "Tracking.mark_cancelled: a node that refuses the cancel stops only a request that names the node"
+    bad = None
+    for r in [n for n in gmc.nodes if n.kind == "stmt" and isinstance(n.ast, ast.Raise)]:
+        fx = facts_at(gmc, r, ld)
+        if not any("cancel()" in a and not pol for a, pol in fx):
+            continue            # not the refusal
+        only_node = any((is_cmd_text(a) and not pol) or (is_node_text(a) and pol) for a, pol in fx)
+        if not only_node:
+            bad = r
+    if bad is None:
+        ctx.ok("R10f", inst)
+    else:
+        ctx.fail("R10f", mcf, bad.ast, inst, "the refusal raises for command requests too, before the Cancelled state is added, and "
+                 "CommandManager._cancel_command swallows it: a uod command the user forced (the run log offers it as forcible) and Stop "
+                 "then cancels stays `forced`, end=None in the run log sent at run end")
+    inst = "Tracking.mark_cancelled: a command touches its node only if the node has started in this invocation"
+    ok_started = all(any("started" in norm(e) or "started" in norm(ld.get(norm(e), e)) or any(
+        isinstance(x, ast.Name) and x.id in ld and "started" in norm(ld[x.id]) for x in ast.walk(e)) for e, pol in gmc.conditions_at(n)) for n in ncancel)
+    if ok_started:
+        ctx.ok("R10f", inst)
+    else:
+        ctx.fail("R10f", mcf, ncancel[0].ast, inst, "node.cancel() is applied whenever the state belongs to the record's latest invocation - also "
+                 "when the node was reset for the next macro call / Alarm run and has not been visited again (no new Created yet): the "
+                 "overlap-cancel of the previous call's command flags the fresh node, the second invocation's cancellation by Stop is "
+                 "refused and its command stays `started` in the run log sent at run end")
+
+    # ---- R10g
+    ctx.rule("R10g", "Stop finalizes UOD command instances that have no executing request")
+    ccm = prog.func("openpectus.engine.command_manager:CommandManager.cancel_commands")
+    ctx.analysed(ccm)
+    gcc = cfg_of(ccm)
+    inst = "cancel_commands(finalize=True): every instance left in uod.command_instances is finalized"
+    loops = [n for n in gcc.nodes if n.kind == "for" and "command_instances" in norm(n.ast.iter)]
+    fin_ok = False
+    for lp in loops:
+        tnames = {x.id for x in ast.walk(lp.ast.target) if isinstance(x, ast.Name)}
+        for st in ast.walk(lp.ast):
+            if isinstance(st, ast.Call) and call_attr(st) in ("finalize", "_finalize_command"):
+                recv = st.func.value if call_attr(st) == "finalize" else (st.args[1] if len(st.args) > 1 else None)
+                if recv is not None and any(isinstance(x, ast.Name) and x.id in tnames for x in ast.walk(recv)):
+                    # under the finalize switch
+                    if any("finalize" in norm(e) and pol for e, pol in gcc.conditions_at(lp)):
+                        fin_ok = True
+    if fin_ok:
+        ctx.ok("R10g", inst)
+    else:
+        ctx.fail("R10g", ccm, (loops[0].ast if loops else ccm.node), inst, "instances without an executing request are only reported ('All commands "
+                 "should be cancelled but these are still not finalized'): user saves the method while `LongA` runs (the merge replaces the "
+                 "CommandManager and its executing list) and stops within three ticks - Stop completes, uod.command_instances still holds "
+                 "LongA, its finalize function never ran, and the next run's LongA continues the stale instance")
+    # ---- R10h
+    ctx.rule("R10h", "the concluded-invocation gate finalizes the command its request has started")
+    from ..cmdgate import concluded_gate, is_conclusive_predicate
+    gate_ok, ecf, disp = concluded_gate(prog, ctx.res)
+    ctx.analysed(ecf)
+    inst = "_execute_command: a retired request's own live command instance is finalized"
+    ge0 = cfg_of(ecf)
+    has_pred_test = any(n.kind == "test" and any(isinstance(c, ast.Call) and any(is_conclusive_predicate(t_) for t_ in ctx.res.resolve_call(c, ecf, cha=False))
+                                                  for c in ast.walk(n.ast)) for n in ge0.nodes)
+    if not gate_ok and has_pred_test:
+        raise AnchorError("_execute_command tests a conclusive-state predicate but the gate shape is not recognised (C12 R12g reports it)")
+    if not gate_ok:
+        ctx.ok("R10h", inst + " (no gate: requests are not retired before the executors)", trivial=True)
+    else:
+        ge = cfg_of(ecf)
+        rpar = ecf.node.args.args[1].arg
+        fins = [n for n in ge.nodes if n.ast is not None and any(call_attr(c) in ("_finalize_command", "finalize") for c in n.calls())]
+        own = [n for n in fins if any(("instance_id" in norm(e) and rpar in norm(e) and pol) for e, pol in ge.conditions_at(n))]
+        if own:
+            ctx.ok("R10h", inst)
+        else:
+            ctx.fail("R10h", ecf, disp[0].ast, inst, "the gate only drops the request: `Macro: M / LongC`, `Watch: Run Time > 0.8s / Call macro: M`, "
+                     "`Wait: 0.5s`, `Call macro: M` - both walkers issue LongC under one instance id, the second request cancels the first "
+                     "one's command (Cancelled on the shared id) and starts its own, which the gate orphans in the next tick: Stop and "
+                     "Restart complete with LongC still in uod.command_instances (initialized twice, finalized once)")
